@@ -141,6 +141,51 @@ Section Framing.
 
   Definition decode_bytes_with (d : decoder) (data : bytes) : decoder * list packet * outcome unit :=
     loop (fuel_for data) d data.
+
+  (* ---- vocabulary of the theorems (CodecProofs/FramingP.v, Properties/C03.v) ---- *)
+  (* two results agree: same packets, same verdict, and the same decoder state — where, after an
+     error, "same state" means "both terminal" (the scratch buffer of a failed decoder is dead) *)
+  Definition result_equiv (x y : decoder * list packet * outcome unit) : Prop :=
+    let '(d1, p1, r1) := x in
+    let '(d2, p2, r2) := y in
+    p1 = p2 /\ r1 = r2 /\
+    match r1 with
+    | Ok _ => d1 = d2
+    | Err _ => d_state d1 = TerminalError /\ d_state d2 = TerminalError
+    | Panic _ => True
+    end.
+
+  (* feeding [a], then (unless that call failed) [b] *)
+  Definition feed2 (d : decoder) (a b : bytes) : decoder * list packet * outcome unit :=
+    let '(d1, ps1, r1) := decode_bytes_with d a in
+    match r1 with
+    | Ok _ => let '(d2, ps2, r2) := decode_bytes_with d1 b in (d2, ps1 ++ ps2, r2)
+    | _ => (d1, ps1, r1)
+    end.
+
+  (* feeding a non-empty sequence of reads, stopping at the first failing call *)
+  Fixpoint feed (d : decoder) (chunks : list bytes) : decoder * list packet * outcome unit :=
+    match chunks with
+    | [] => (d, [], Ok tt)
+    | [c] => decode_bytes_with d c
+    | c :: rest =>
+      let '(d1, ps1, r1) := decode_bytes_with d c in
+      match r1 with
+      | Ok _ => let '(d2, ps2, r2) := feed d1 rest in (d2, ps1 ++ ps2, r2)
+      | _ => (d1, ps1, r1)
+      end
+    end.
+
+  (* decoder states from which the `unwrap`s and slice expressions of process_read_packet_body
+     are safe; [decoder_init] satisfies it and every call preserves it *)
+  Definition wf (d : decoder) : Prop :=
+    match d_state d with
+    | ReadPacketType => True
+    | ReadTotalRemainingLength => d_first_byte d <> None
+    | ReadPacketBody =>
+      d_first_byte d <> None /\ exists n, d_remaining_length d = Some n /\ len (d_scratch d) <= n
+    | TerminalError => True
+    end.
 End Framing.
 
 (* Decoder::decode_bytes with decode_packet as the body decoder: new decoder state, packets
